@@ -211,6 +211,25 @@ def r20_3(ctx):
               f"without inherit the entry is `{detail}`: not exactly the theme's own styles")
 
 
+def _base_polarity(test) -> Optional[str]:
+    """'base' when the test holds exactly when only the base theme is left (len(self._entries) == 1, <= 1, < 2), 'more' when it
+    holds exactly when something can be popped (!= 1, > 1, >= 2); operands in either order; None for any other test."""
+    if isinstance(test, ast.UnaryOp) and isinstance(test.op, ast.Not):
+        p = _base_polarity(test.operand)
+        return None if p is None else ("more" if p == "base" else "base")
+    if not (isinstance(test, ast.Compare) and len(test.ops) == 1):
+        return None
+    l, op, r = test.left, test.ops[0], test.comparators[0]
+    flip = {ast.Lt: ast.Gt, ast.Gt: ast.Lt, ast.LtE: ast.GtE, ast.GtE: ast.LtE, ast.Eq: ast.Eq, ast.NotEq: ast.NotEq}
+    if norm(r) == "len(self._entries)" and type(op) in flip:
+        l, r, op = r, l, flip[type(op)]()
+    if norm(l) != "len(self._entries)" or not (isinstance(r, ast.Constant) and type(r.value) is int):
+        return None
+    k = r.value
+    table = {(ast.Eq, 1): "base", (ast.LtE, 1): "base", (ast.Lt, 2): "base", (ast.NotEq, 1): "more", (ast.Gt, 1): "more", (ast.GtE, 2): "more"}
+    return table.get((type(op), k))
+
+
 def r20_4(ctx):
     ctx.rule("R20.4", "the base theme can never be popped: every _entries.pop() is dominated by the false branch of a `len(self._entries) == 1` test whose true branch raises")
     c = _ts(ctx)
@@ -231,18 +250,30 @@ def r20_4(ctx):
                 facts = g.branch_facts(nd.id)
                 ok = False
                 for t, v in facts:
-                    tt = norm(_inl(t, _sd))
-                    if v is False and tt in ("len(self._entries) == 1", "len(self._entries) <= 1", "len(self._entries) < 2"):
-                        # true branch must raise
-                        ok = True
-                    if v is True and tt in ("len(self._entries) > 1", "len(self._entries) >= 2"):
+                    pol = _base_polarity(_inl(t, _sd))
+                    # the pop sits where "more than the base theme is left" holds
+                    if pol is not None and ((pol == "base" and v is False) or (pol == "more" and v is True)):
                         ok = True
                 ctx.check(ok, f.fq, short(nd.stmt), f"{f.module.relpath}:{nd.lineno}", "pop guarded by len(_entries) == 1 -> raise",
                           "an entry is popped without first refusing when only the base theme is left: the stack can become empty and every later lookup fails")
-                # the guard's other branch raises
-                for x in walk_local(f.node):
-                    if isinstance(x, ast.If) and "len(self._entries)" in norm(_inl(x.test, _sd)):
-                        ctx.check(any(isinstance(b, ast.Raise) for b in x.body), f.fq, f"if {norm(x.test)}: raise", f"{f.module.relpath}:{x.lineno}", "refusal raises", "the base-theme guard does not raise")
+                # the branch on which only the base theme is left raises
+                for parent in walk_local(f.node):
+                    for fld in ("body", "orelse", "finalbody"):
+                        sibs = getattr(parent, fld, None)
+                        if not isinstance(sibs, list):
+                            continue
+                        for k, x in enumerate(sibs):
+                            if not isinstance(x, ast.If):
+                                continue
+                            pol = _base_polarity(_inl(x.test, _sd))
+                            if pol is None:
+                                continue
+                            if pol == "base":
+                                raises = any(isinstance(b, ast.Raise) for b in x.body)
+                            else:
+                                raises = any(isinstance(b, ast.Raise) for b in x.orelse) or (
+                                    not x.orelse and x.body and isinstance(x.body[-1], ast.Return) and any(isinstance(b, ast.Raise) for b in sibs[k + 1:]))
+                            ctx.check(raises, f.fq, f"if {norm(x.test)}: raise", f"{f.module.relpath}:{x.lineno}", "refusal raises", "the base-theme guard does not raise")
     ctx.floor(n, 1, "pops of ThemeStack._entries")
 
 
